@@ -337,8 +337,8 @@ size_t req_sketch<T, C, A>::get_serialized_size_bytes(const SerDe& sd) const {
   if (is_estimation_mode()) {
     size += sizeof(n_) + sizeof(TT) * 2; // min and max
   }
-  if (n_ == 1) {
-    size += sizeof(TT);
+  if (n_ <= req_constants::MIN_K) { // raw items format: just the items, no compactor header
+    size += sizeof(TT) * n_;
   } else {
     for (const auto& compactor: compactors_) size += compactor.get_serialized_size_bytes(sd);
   }
@@ -356,8 +356,8 @@ size_t req_sketch<T, C, A>::get_serialized_size_bytes(const SerDe& sd) const {
     size += sd.size_of_item(*min_item_);
     size += sd.size_of_item(*max_item_);
   }
-  if (n_ == 1) {
-    size += sd.size_of_item(*compactors_[0].begin());
+  if (n_ <= req_constants::MIN_K) { // raw items format: just the items, no compactor header
+    for (auto it = compactors_[0].begin(); it != compactors_[0].end(); ++it) size += sd.size_of_item(*it);
   } else {
     for (const auto& compactor: compactors_) size += compactor.get_serialized_size_bytes(sd);
   }
